@@ -39,6 +39,15 @@ def sig(fl):
                 kind = "refused-although-hinted-nodes-have-enough"
             elif op == "alloc":
                 kind = "result-not-allowed"
+        if kind == "unclassified" and op == "alloc" and e.get("hasHint") and not e.get("bind") and not e.get("result", {}).get("ok"):
+            # label only (beyond the first few rejections bin/check does not ask TLC for the expectation): a refusal changes
+            # nothing, so the free amounts it saw are capacity - ledger of the same event
+            hint = set(e.get("hint", []))
+            cap = fl["segment"][0].get("cap", [])
+            led = e.get("obs", {}).get("numa", [])
+            free = lambda k: sum(max(0, c.get(k, 0) - _amt(led, {c.get("node")}, k)) for c in cap if c.get("node") in hint)
+            if all(free(k) >= e.get("req", {}).get(k, 0) for k in ("cpu", "mem")):
+                kind = "refused-although-hinted-nodes-have-enough"
         if op != "alloc":
             return "op=%s kind=%s" % (op, kind)
         r = e.get("result", {})
